@@ -299,6 +299,29 @@ def u_problems(c):
     c.prove("verify/SelectorError-iff-problems", (st == "raise" and exc_name(r) == "SelectorError") if n else (st == "ok" and r is sel))
 
 
+@unit("probe-construction-real-selectors", ["C18"], [P + ":Probe._make_emitter", P + ":Probe._make_rule", S + ":Call.focus", S + ":Call.all_tags", S + ":Element.focus"],
+      mode="bounded", bound="four focus patterns compiled by the real parser x three probe types")
+def u_probe_construction_real(c):
+    """The refusal of a second-focus mark without a first holds for REAL compiled selectors (whose focus / all_tags are cached
+    properties of an interned object: reading one must not change what the other reports), whatever the probe type."""
+    it = Interp(c)
+    from contracts.lifecycle import _giving_hooks
+
+    _giving_hooks(it)
+    texts = [("f(x)", set()), ("f(!x)", {1}), ("f(!x, !!y)", {1, 2}), ("f(!!x)", {2}), ("f(x, !!y)", {2})]
+    text, tags = texts[c.choose(len(texts), "selector")]
+    ptype = [None, "immediate", "total"][c.choose(3, "probe_type")]
+    sel = _compile(it, text, {})
+    prb = Obj(it.get_global(P, "Probe"), c.new_id())
+    st, r = run(it, it.getattr(prb, "_make_rule"), [sel, ptype])
+    if tags == {2}:
+        c.prove("second-focus-without-a-first/refused-with-ValueError", st == "raise" and isinstance(r, ValueError), note=f"{text} probe_type={ptype}: {st} {r!r}")
+    elif tags == {1, 2} and ptype == "total":
+        c.prove("two-focuses-with-a-total-rule/refused", st == "raise" and isinstance(r, ValueError), note=f"{text}: {st}")
+    else:
+        c.prove("accepted", st == "ok", note=f"{text} probe_type={ptype}: {st} {r!r}")
+
+
 @unit("probe-construction", ["C18", "C04"], [P + ":Probe._make_emitter", P + ":Probe._make_rule", P + ":OverridableProbe._make_rule"])
 def u_probe_construction(c):
     """Refusal at probe construction: a second-focus mark (!!) without a first (!) -> ValueError('Unsupported focus pattern');
